@@ -235,6 +235,48 @@ def routing_history(rng, prof):
                     g.publish(pubr, qos=0, ack_off=True)
                 g.ops.append(op("stall", k=g.k(c), kind="off"))
                 g.ops.append(op("ping", k=g.k(c)))
+        elif a == "overlap_subid":
+            # two overlapping subscriptions of one client with different identifiers; messages that match both, one, both
+            live = [x for x in clients if g.k(x) and g.ver[g.k(x)] == 5]
+            pubs = [x for x in clients if g.k(x)]
+            if live and len(pubs) >= 2:
+                c = rng.choice(live)
+                pubr = rng.choice([x for x in pubs if x != c])
+                f1, f2, both, one = rng.choice([(["a", "#"], ["a", "+"], ["a", "b"], ["a", "b", "c"]), (["#"], ["a"], ["a"], ["b"]),
+                                                (["+", "b"], ["a", "b"], ["a", "b"], ["b", "b"]), (["a", "#"], ["a"], ["a"], ["a", "a"])])
+                i1, i2 = rng.sample(range(1, 9), 2)
+                for f, i in ((f1, i1), (f2, i2)):
+                    g.ops.append(op("subscribe", k=g.k(c), pid=g.pid(g.k(c)), subid=i, filters=[dict(f=f, qos=rng.choice([0, 1]), nl=False, rap=False, rh=2)]))
+                    g.subs.setdefault(c, []).append(f)
+                for t in (both, one, both, one):
+                    g.ops.append(op("publish", k=g.k(pubr), t=t, m=g.msg(), qos=0))
+        elif a == "alias_rebind":
+            # an inbound alias bound to one topic, bound again to another, then used with an empty topic
+            live = [x for x in clients if g.k(x) and g.ver[g.k(x)] == 5]
+            if live:
+                c = rng.choice(live)
+                ta, tb = rng.sample(prof.get("topics", TOPICS[:4]), 2)
+                al = rng.randint(1, prof.get("alias_max", 2))
+                g.ops.append(op("publish", k=g.k(c), t=ta, m=g.msg(), qos=0, alias=al))
+                g.ops.append(op("publish", k=g.k(c), t=tb, m=g.msg(), qos=0, alias=al))
+                g.ops.append(op("publish", k=g.k(c), t=tb, m=g.msg(), qos=0, alias=al, notopic=True))
+                g.__dict__.setdefault("bound", {}).setdefault(g.k(c), {})[al] = tb
+        elif a == "version_switch":
+            # a persistent session with an unacknowledged QoS 1 delivery is resumed by a connection of the other protocol version
+            pubs = [x for x in clients if g.k(x)]
+            if len(pubs) >= 2:
+                c = rng.choice(pubs)
+                pubr = rng.choice([x for x in pubs if x != c])
+                v1 = rng.choice([5, 4])
+                f = rng.choice([["a"], ["a", "b"]])
+                g.connect(c, v=v1, clean=True, sei=300)
+                g.ops.append(op("subscribe", k=g.k(c), pid=g.pid(g.k(c)), filters=[dict(f=f, qos=1, nl=False, rap=False, rh=0)]))
+                g.subs.setdefault(c, []).append(f)
+                g.ops.append(op("publish", k=g.k(pubr), t=f, m=g.msg(), qos=1, pid=g.pid(g.k(pubr)) + 100))
+                g.ops.append(op("netdrop", k=g.k(c)))
+                del g.conn[c]
+                g.connect(c, v=9 - v1, clean=False, sei=300)
+                g.ops.append(op("ackall", k=g.k(c)))
         elif a == "size_sweep":
             # a subscriber with a Maximum Packet Size takes a run of messages whose sizes step through the limit byte by byte
             live = [x for x in clients if g.k(x)]
@@ -387,6 +429,19 @@ def qos_history(rng, prof):
                     g.ops.append(op("pubrel", k=k, pid=o["pid"]))
                 else:
                     open2.setdefault(c, []).append((o["pid"], o["t"], o["m"]))
+        elif a == "pubrec_drop":
+            # a QoS 2 delivery; the subscriber's PUBREC is the last thing its connection sends (the broker cannot write the
+            # PUBREL); the session is resumed: the exchange goes on from where the broker's record stands
+            c, pc = rng.choice(subs), rng.choice(pubs)
+            if not g.k(c) or not g.k(pc):
+                continue
+            o = op("publish", k=g.k(pc), t=rng.choice(topics), m=g.msg(), qos=2)
+            o["pid"] = client_pid(g.k(pc))
+            g.ops.append(o)
+            g.ops.append(op("pubrel", k=g.k(pc), pid=o["pid"]))
+            g.ops.append(op("pubrec", k=g.k(c), nth=1, rc=0, drop=True))
+            del g.conn[c]
+            g.connect(c, clean=False, sei=300, **rmkw())
         elif a == "dup2":       # retransmit an open QoS 2 publish (DUP), possibly after a reconnect
             cands = [c for c in open2 if open2[c]]
             if not cands:
